@@ -1,11 +1,17 @@
 use crate::runner::Ctx;
 
 pub mod c07;
+pub mod c09;
+pub mod c10;
+pub mod c16;
 
 /// dispatch; false if the id is unknown
 pub fn run(ctx: &Ctx) -> bool {
     match ctx.prop.as_str() {
         "C07" => c07::run(ctx),
+        "C09" => c09::run(ctx),
+        "C10" => c10::run(ctx),
+        "C16" => c16::run(ctx),
         _ => return false,
     }
     true
